@@ -39,7 +39,8 @@ theorem key_shape_injective : Extracted.cacheKeyShape.head? = some "repr-tuple" 
 theorem key_covers_grammar_options_versions :
     Extracted.cacheKeyShape = ["repr-tuple", "grammar", "self.source_path", "options_items", "__version__", "sys.version_info[]"] := by decide
 
-/-- every option is either part of the key or explicitly exempt (`unhashable`) -/
+/-- every option is either part of the key or explicitly exempt (`unhashable`); what the exemption of `edit_terminals` and `postlex` costs is finding F37
+    (a cached parser of another option set is served), recorded and replayed by the check -/
 theorem unhashable_options_are_declared : Extracted.unhashableOptions.all (fun o => Extracted.optionDefaults.contains o) = true := by decide
 
 end Props.C12
